@@ -1,4 +1,4 @@
 INIT Init
 NEXT Next
-INVARIANTS Lemma EntLemma
+INVARIANTS Lemma EntLemma FilterLemma MinKeysLemma
 CHECK_DEADLOCK FALSE
